@@ -537,8 +537,43 @@ fn run_w<W: C05Ext>(u: &mut Unstructured, cx: &mut Ctx) -> R {
                 model.clear();
             }
             Op::Extend(l) => {
-                cx.must("extend", || v.extend(l.iter().map(|x| W::from128(*x))))?;
+                let kind = (l.len() as u64).wrapping_mul(0x9E37) >> 3;
+                let items: Vec<W> = l.iter().map(|x| W::from128(*x)).collect();
+                cx.must("extend", || v.extend(hinted(&items, kind)))?;
                 model.extend(l.iter().copied());
+                // an extend left by a panic in the middle (a value that does not fit, when there is one):
+                // the vector must be either untouched or hold the accepted prefix, and stay usable
+                if width < W::WBITS && !l.is_empty() && l.len() % 3 == 0 {
+                    let k = l.len() / 2;
+                    let mut bad = items.clone();
+                    bad[k] = W::from128(mask128(width) + 1);
+                    let before = model.clone();
+                    cx.must_panic("extend(bad value inside)", || v.extend(hinted(&bad, kind + 1)))?;
+                    let got = cx.must("len", || BitFieldSliceCore::len(&v))?;
+                    if got == before.len() + k {
+                        model.extend(l[..k].iter().copied());
+                        cx.label("extend_panic_keeps_prefix");
+                    } else if got != before.len() {
+                        return Err(Fail::mismatch("extend.panic", format!("extend.panic: after an extend that panicked at its item {k} the length is {got}; it was {} before", before.len())));
+                    }
+                }
+                // an extend whose source iterator panics after k items, all of which fit: a plain vector keeps
+                // the k items it had already received
+                if !l.is_empty() && l.len() % 3 == 1 {
+                    let k = l.len() / 2;
+                    let src = items.clone();
+                    let mut i = 0usize;
+                    let it = std::iter::from_fn(move || {
+                        if i == k {
+                            panic!("source iterator failed");
+                        }
+                        i += 1;
+                        Some(src[i - 1])
+                    });
+                    cx.must_panic("extend(panicking iterator)", || v.extend(it))?;
+                    model.extend(l[..k].iter().copied());
+                    cx.label("extend_source_panics");
+                }
                 resized |= !l.is_empty();
                 wrote |= !l.is_empty();
             }
@@ -688,7 +723,7 @@ impl Property for C05 {
         ]
     }
     fn rule(&self) -> &'static str {
-        "case = (word type, bit width 0..=BITS, construction route, <=60 ops incl. atomic scripts, conversions and a Scribble op that writes garbage through the safe as_mut_slice() into the backend bits beyond len*width) decoded from bytes; model = Vec of values; len/bit_width/every get/iter with exact length hints compared after every op; values that do not fit and indices out of range must panic and leave the contents unchanged. set() with width 0 is never generated (documented as undefined). Every iterator is also driven through a generated script of next/nth/size_hint steps and one consuming adaptor (count, last, collect, step_by, skip, fold) in lock-step with the model's iterator. Equality is also taken between the vector and borrowed views over its own words (same shape: equal; one element shorter or one bit narrower: different). Non-trivial: at least one write followed by a later read and at least one growth or shrink; distinct = distinct hash of the decoded history."
+        "case = (word type, bit width 0..=BITS, construction route, <=60 ops incl. atomic scripts, extend from iterators with exact / (0,Some(n)) / (0,Some(usize::MAX)) / (0,None) size hints, extends left by a panic (a value that does not fit: the vector is untouched or keeps the accepted prefix; a source iterator that panics after k fitting items: the k items stay, as in a plain vector), conversions and a Scribble op that writes garbage through the safe as_mut_slice() into the backend bits beyond len*width) decoded from bytes; model = Vec of values; len/bit_width/every get/iter with exact length hints compared after every op; values that do not fit and indices out of range must panic and leave the contents unchanged. set() with width 0 is never generated (documented as undefined). Every iterator is also driven through a generated script of next/nth/size_hint steps and one consuming adaptor (count, last, collect, step_by, skip, fold) in lock-step with the model's iterator. Equality is also taken between the vector and borrowed views over its own words (same shape: equal; one element shorter or one bit narrower: different). Non-trivial: at least one write followed by a later read and at least one growth or shrink; distinct = distinct hash of the decoded history."
     }
     fn run(&self, data: &[u8], cx: &mut Ctx) -> R {
         let (mode, rest) = data.split_first().unwrap_or((&0, &[]));
